@@ -4,6 +4,7 @@ CONSTANTS
   MaxCycles = 5
   ExportScripts = TRUE
   EnableFaults = TRUE
+  EnableRestart = TRUE
   SrcVals = {0, 3, 129, 255}
   Dts = {1, 2, 3, 5, 7}
 VIEW View
